@@ -173,6 +173,8 @@ class Discharger:
     def leaf_interval(self, body, e):
         """data-derived ranges of leaves: annotated fields / getter payloads, integer parses of finite regex groups"""
         k = e[0]
+        if k == 'arg' and not getattr(self, '_in_caller', False):
+            return self.param_interval(body, e[1])
         if k == 'field':
             full = e[3] if len(e) > 3 else ''
             if full in self.annot['fields']:
@@ -185,11 +187,50 @@ class Discharger:
                 key = (call[1], e[2].lstrip('#'))
                 if key in self.annot['calls']:
                     return self.annot['calls'][key][0]
+        if k == 'call' and e[1] in self.facts.bodies and not getattr(self, '_inlining', False):
+            from .facts import inline_calls, inlinable
+            if inlinable(self.facts, e[1]) is not None:
+                self._inlining = True
+                try:
+                    e2 = inline_calls(self.facts, e, depth=2)
+                    if e2[0] != 'call' or e2[1] != e[1]:
+                        return interval(body, e2, env=self.env)
+                finally:
+                    self._inlining = False
         if k == 'call' and re.search(r'(Result|Option)::<.*>::unwrap$', e[1]) and e[2]:
             call = strip(e[2][0], transparent=False)
             if call[0] == 'call' and re.search(r'core::str::<impl str>::parse$', call[1]):
                 return self.group_parse_interval(body, call)
         return None
+
+    def param_interval(self, body, idx):
+        """range of an integer parameter = union over all (direct, crate-local) call sites; None unless every caller is known"""
+        ty = body.locals.get(idx, '')
+        if ty not in INT_RANGE:
+            return None
+        callers = self.ctx.cg.callers_of(body.path)
+        if not callers:
+            return None
+        out = None
+        n = 0
+        self._in_caller = True
+        try:
+            for cp in callers:
+                cb = self.facts.bodies[cp]
+                kinds = [k for (y, k) in self.ctx.cg.edges.get(cp, ()) if y == body.path]
+                if any(k != 'direct' for k in kinds):
+                    return None
+                for bid, t in cb.calls():
+                    c = t.get('callee')
+                    if c and c['path'] == body.path and idx - 1 < len(t['args']):
+                        iv = interval(cb, cb.expr(t['args'][idx - 1]), env=self.env)
+                        if iv is None:
+                            return None
+                        out = iv if out is None else (min(out[0], iv[0]), max(out[1], iv[1]))
+                        n += 1
+        finally:
+            self._in_caller = False
+        return out if n else None
 
     def group_parse_interval(self, body, call):
         gen = call[3]['callee'].get('gen', []) if isinstance(call[3], dict) else []
@@ -264,9 +305,35 @@ class Discharger:
         if fn is None:
             return None
         try:
-            return fn(ob)
+            r = fn(ob)
         except RecursionError:
+            r = None
+        if r is None and ob.kind != 'refcell':
+            r = self.pattern_dead(ob)
+        return r
+
+    def rule_of(self, body):
+        for rn, fn_ in list(model.rule_functions(self.ctx).items()) + [('small_date', 'tokinizer::rule_tokinizer::rules::date_rules::small_date')]:
+            if fn_ == body.path:
+                return rn
+        return None
+
+    def pattern_dead(self, ob):
+        """the site is guarded by get_X("name", fields) being Some, but no pattern of the rule binds `name`"""
+        rule = self.rule_of(ob.body)
+        if not rule:
             return None
+        from .data import abstract_tokens
+        bound = set()
+        for lang in self.config.languages:
+            for rn, p, org in model.all_patterns(self.ctx, lang):
+                if rn == rule:
+                    bound |= {t[2] for t in abstract_tokens(p) if t[0] == 'field'}
+        for cond in self.deep_conds(ob):
+            m = re.fullmatch(r'discr\(tools::get_\w+\((?:config, )?"([^"]+)", fields\)\)=\[1\]', cond)
+            if m and m.group(1) not in bound:
+                return ('pattern-dead', 'only reachable when field %r is bound, and no pattern of rule %s binds it (data witness)' % (m.group(1), rule))
+        return None
 
     # --- asserts
     def d_ub_check(self, ob):
@@ -574,11 +641,46 @@ class Discharger:
         b = ob.body
         key = render(src[2][1])
         recv = render(src[2][0])
+        if key == 'tokinizer.language' and self.rule_of(b) and recv.startswith('config.'):
+            w = self.lang_keyed_witness(recv.split('.', 1)[1])
+            if w:
+                return ('lang-keyed-guard', w)
         for cond in self.deep_conds(ob):
             if re.search(r'BTreeMap::contains_key\(%s, %s\)!=\[0\]' % (re.escape(recv), re.escape(key)), cond):
                 return ('guard-dom', 'dominated by contains_key on the same map and key')
             if re.search(r'BTreeMap::contains_key\(.*?, %s\)!=\[0\]' % re.escape(key), cond) and recv.split('.')[-1] in cond:
                 return ('guard-dom', 'dominated by contains_key on the same key')
+        return None
+
+    def lang_keyed_witness(self, table):
+        """rule functions only run when config.rule has the session language; load_from_json fills `rule` and `table`
+        for exactly the languages of json_data.languages"""
+        rt = self.facts.one(r'^tokinizer::rule_tokinizer::rule_tokinizer$')
+        ok1 = False
+        for i in rt.normal_blocks:
+            t = rt.blocks[i]['term']
+            if t['k'] == 'call' and t.get('callee') is None:
+                ok1 = any(re.fullmatch(r'discr\(BTreeMap::get\(tokinizer\.config\.rule, tokinizer\.language\)\)=\[1\]', c) for c in rt.cond_text(i))
+        lf = self.facts.body('config::SmartCalcConfig::load_from_json')
+        keys = {}
+        from .effects import fields_in
+        for bid, t in lf.calls(r'BTreeMap::<.*>::insert$'):
+            recv = lf.expr(t['args'][0])
+            # the receiver place: &mut config.<field>
+            fld = None
+            p0 = opplace(t['args'][0])
+            if p0:
+                for d in lf.defs().get(p0['local'], []):
+                    if d[1] == 'stmt' and d[2]['rv'] == 'ref':
+                        pr = opplace(d[2]['ops'][0])['proj']
+                        fs = [pe['field'] for pe in pr if isinstance(pe, dict) and 'field' in pe]
+                        if fs and fs[-1].startswith('config::SmartCalcConfig.'):
+                            fld = fs[-1].rsplit('.', 1)[1]
+            if fld in ('rule', table):
+                k = lf.expr(t['args'][1])
+                keys['config.' + fld] = 'constants::JsonConstant.languages' in fields_in(k)
+        if ok1 and keys.get('config.rule') and keys.get('config.' + table):
+            return 'a rule function runs only when config.rule[language] exists; load_from_json fills rule and %s for the same language set' % table
         return None
 
     def dom_check(self, ob, src):
@@ -649,6 +751,8 @@ class Discharger:
                 # normalise to  X < len
                 if op in ('Gt', 'Ge'):
                     l, r, op = r, l, {'Gt': 'Lt', 'Ge': 'Le'}[op]
+                if re.fullmatch(lenpat, l) and re.fullmatch(r'\d+', r) and ivl is not None and op in ('Gt', 'Ge'):
+                    pass
                 if re.fullmatch(lenpat, r):
                     if l == it and (op == 'Lt' or (op == 'Le' and allow_equal)):
                         return ('guard-dom', 'dominated by index %s len of the same collection' % ('<' if op == 'Lt' else '<='))
@@ -658,6 +762,15 @@ class Discharger:
                         k = int(mm.group(1))
                         if op == 'Lt' or k >= 1 or allow_equal:
                             return ('guard-dom', 'dominated by index + %d %s len of the same collection' % (k, '<' if op == 'Lt' else '<='))
+            # `len < k` is false  =>  len >= k  =>  a constant index < k is in range
+            m2 = re.fullmatch(r'\((.*) (Lt|Ge|Gt|Le) (\d+)\)(!?=)\[0\]', cond)
+            if m2 and re.fullmatch(lenpat, m2.group(1)) and ivl is not None and ivl[0] >= 0:
+                o3, k3 = m2.group(2), int(m2.group(3))
+                if m2.group(4) == '=':
+                    o3 = {'Lt': 'Ge', 'Ge': 'Lt', 'Gt': 'Le', 'Le': 'Gt'}[o3]
+                minlen = k3 if o3 == 'Ge' else k3 + 1 if o3 == 'Gt' else None
+                if minlen is not None and ivl[1] < minlen + (1 if allow_equal else 0):
+                    return ('guard-dom', 'dominated by len >= %d, index in [%d, %d]' % (minlen, ivl[0], ivl[1]))
             m = re.fullmatch(r'discr\((?:slice::get|Vec::get)\((.*), (.*)\)\)=\[1\]', cond)
             if m and m.group(1) == ct and m.group(2) == it:
                 return ('guard-dom', 'dominated by get(index) being Some on the same collection')
